@@ -23,8 +23,10 @@ ASSUME = ["pre_ok / pre_total: the LLL-HNF preprocessing returns H = P*A with P*
           "exact comparison; the dictionaries without preprocessing have closed theorems",
           "ring dictionaries of Model/Snf.v behave as the Rust scalar types on the explored entries (validated by the run; "
           "C14/C15); snf_laws, norm_laws, gcdx_total are proved for Z, Z[i], Z[w], Q, F_2, F_p in Coq",
-          "uniqueness of the invariant factors (gcds of minors) is not proved; chk_minors is evaluated on the "
-          "implementation's output for small shapes (validation of individual outputs)",
+          "uniqueness of the invariant factors is a theorem (Properties/C09Unique.v: any two chain Smith forms of one matrix "
+          "over a Bezout integral domain have the same rank and entrywise associate diagonals; equal normalised diagonals for "
+          "Z, Z[i], Z[w], fields; gcds of k x k minors over Z via CoqEAL in Properties/C09UniqueMinors.v); chk_minors is "
+          "additionally evaluated on the implementation's output for small shapes (validation of individual outputs)",
           "machine-width overflow aborts (i32/i64/i128 and their quadratic / rational extensions panic where the unbounded "
           "model returns a value) are out of scope and counted, not flagged; BigInt rings are compared exactly; a model run "
           "returning None (model_none) or a panic on an arbitrary-precision ring would be reported as a violation"]
@@ -142,10 +144,10 @@ def explain(corr):
 
 def run(ctx):
     ctx.equal = equal
-    obl = C.coq_obligations(ctx.pid, ["Extract/ExtractC09.vo"])
+    obl = C.coq_obligations(ctx.pid, ["Extract/ExtractC09.vo"], more_props=["C09Unique", "C09UniqueMinors"])
     extra = {}
     if ctx.thorough:
-        extra.update(C.coqchk(ctx.pid))
+        extra.update(C.coqchk(ctx.pid, more_props=["C09Unique", "C09UniqueMinors"], timeout=2400))
     corr = C.correspondence(ctx, "c09", nontrivial)
     viol, stats = scan(ctx)
     extra["c09_stats"] = stats
